@@ -2103,7 +2103,40 @@ fn corpus(out: &mut Out) {
     batch_corpus(out);
 }
 
+/// (round 5, after seed C04-10) "handles without storage have no effect" includes time: an operation on a no-op handle
+/// returns at once whatever its arguments — `Histogram::noop().record_many(v, usize::MAX)` must not loop `usize::MAX` times
+/// (a looping default behind the no-op handle never returns). Run on a helper thread with a generous bound; the thread
+/// is abandoned if it does not come back (it cannot be cancelled).
+fn noop_returns_at_once(out: &mut Out) {
+    out.case("noop handles return at once");
+    let (tx, rx) = std::sync::mpsc::channel();
+    std::thread::Builder::new()
+        .name("c04-noop".into())
+        .spawn(move || {
+            let t0 = std::time::Instant::now();
+            Histogram::noop().record_many(1.5, usize::MAX);
+            Histogram::noop().record_many(f64::NAN, usize::MAX / 3);
+            Histogram::noop().record(2.0);
+            Counter::noop().increment(u64::MAX);
+            Counter::noop().absolute(u64::MAX);
+            Gauge::noop().set(f64::INFINITY);
+            Gauge::noop().increment(1.0);
+            Gauge::noop().decrement(1.0);
+            let _ = tx.send(t0.elapsed());
+        })
+        .expect("spawn");
+    out.count("noop: huge-count operations on no-op handles");
+    match rx.recv_timeout(std::time::Duration::from_secs(20)) {
+        Ok(_) => {}
+        Err(_) => out.oracle_fail(
+            "an operation on a no-op handle did not return (handles without storage must have no effect — not a loop over the count either)",
+            "Histogram::noop().record_many(1.5, usize::MAX) and friends on a helper thread: nothing came back within 20 s",
+        ),
+    }
+}
+
 pub fn run(cfg: &Cfg, out: &mut Out) {
+    noop_returns_at_once(out);
     let prev_hook = std::panic::take_hook();
     std::panic::set_hook(Box::new(|_| {})); // panics are caught and reported as oracle failures
     type_probes(out);
